@@ -38,7 +38,19 @@ def run_case(c):
         qtrace.drain()                       # construction events are not part of the case
         op = c['op']
         try:
-            if op == 'Convert':
+            if op in ('AllocConvert', 'AllocCmp', 'AllocDiv'):
+                # a portion returned by allocate() (possibly adjusted by the dispersal of the rounding error) is a
+                # quantity like any other: converting / comparing / dividing it goes by ITS amount
+                portions, rem = x.allocate([mk_amount(r, 'frac') for r in c['ratios']], True)
+                part = (portions + [rem])[c['idx'] % (len(portions) + 1)]
+                qtrace.drain()
+                if op == 'AllocConvert':
+                    part.convert(Unit(actual(c['to'])))
+                elif op == 'AllocCmp':
+                    part == y
+                else:
+                    part / Unit(actual(c['to']))
+            elif op == 'Convert':
                 x.convert(Unit(actual(c['to'])))
             elif op == 'Cmp':
                 {'lt': operator.lt, 'le': operator.le, 'gt': operator.gt, 'ge': operator.ge, 'eq': operator.eq}[c['c']](x, y)
